@@ -6,6 +6,26 @@ TECH = "bounded exhaustive enumeration (stateless explicit-state exploration of 
 
 # property -> (category, text, note, technique)
 CHECKS = {
+ "C01": ("model_checking",
+  "Bounded exhaustive exploration of the real encoder+decoder: every (configuration x input x call schedule) of the tiny / shape / big families (all strings over small alphabets, boundary-forcing inputs for 512-byte windows and 127-symbol blocks, > 2 windows at 32 KiB; every single deviation from the default schedule: split position, flush kind, output room, parameter change, plus selected double deviations). Every stream is decoded by zlib-rs under three schedules and by the independent reference decoder R2+R3 and compared with the input.",
+  "Trusted: reference decoder R2/R3 (cross-validated against zlib-ng at start-up), the harness. Not covered: inputs/configs/schedules outside the families.",
+  TECH),
+ "C05": ("model_checking",
+  "Same bounded exhaustive (configuration x input x schedule) families as C01; every emitted stream is checked by the strict reference: RFC 1950/1952 header and trailer rules (R3) and a strict RFC 1951 decode limited to the announced window (R2) that must reproduce the input.",
+  "Trusted: R2 strict mode, R3. Not covered: streams for histories outside the families.",
+  TECH),
+ "C12": ("model_checking",
+  "Same bounded exhaustive families as C01 plus the dictionary and gzip-header lattices, each history executed in lock-step on zlib-rs and on zlib-ng 2.3.3 linked into the same process; complete output streams must be byte-identical.",
+  "Trusted: zlib-ng 2.3.3 (vendored by libz-sys 1.1.29, compat mode) as the reference the repository pins. Histories on which zlib-ng itself violates an API obligation are counted as not comparable.",
+  "bounded exhaustive enumeration of call histories, lock-step conformance against the reference implementation"),
+ "C13": ("model_checking",
+  "Bounded exhaustive lattice of dictionary lengths (around 0, MIN_MATCH, window-262, window, 2*window, 3*window) x windowBits x level x memLevel x wrapper x input x schedule, plus dictionaries installed between blocks of raw streams; Get-dictionary after every call is compared with the history model R7, header FDICT/DICTID with R1/R3, and the NEED_DICT / accept / reject / too-early protocol and the round trip are checked on the real code.",
+  "Trusted: R7 history model, R1-R3. Known finding F1 (stale window after the trailer-verifying call, zlib-compatible) is reported as KNOWN-FINDING.",
+  TECH),
+ "C20": ("model_checking",
+  "Bounded exhaustive lattice of gzip header contents x memLevel (pending buffer smaller/larger than the header) x output rooms on the write side, parsed back by the reference R3; on the read side R3-built headers x input chunkings (one call, 1-byte pieces, every single split) x capture capacities {NULL,0,1,len-1,len,len+1} in guard-paged buffers, compared field by field with the R3 parse.",
+  "Trusted: R3 (RFC 1952 writer/parser). Field lengths outside the lattice are not covered.",
+  TECH),
  "C09": ("model_checking",
   "Bounded exhaustive enumeration of the real checksum code: every length up to the bound x 64 alignments x start values x data patterns x run-time/compile-time selected implementation variant, all 1-/2-byte strings, every splitting position, every (|A|,|B|) pair for combine; each result compared with the definitional reference model R1.",
   "Trusted: R1 (bitwise CRC-32 / per-byte-modulo Adler-32, self-tested against published check values); the H1 CPU mask hook. Not covered: non-x86 variants, lengths beyond the bound.",
